@@ -800,7 +800,7 @@ def extract_caches(repo: Path):
 
 def extract_wrapper_setters(repo: Path):
     """Every descriptor `__set__` that replaces a whole repeated field (calls replace_node and stores the new wrapper in the
-    instance dict): does it forget the model's cached views afterwards (a call to drop_cached_views after the store)?"""
+    instance dict): does it forget the model's cached views (a call to drop_cached_views)?"""
     pkg = repo / 'autobean_refactor'
     rows = []
     for p in sorted(pkg.rglob('*.py')):
@@ -820,7 +820,7 @@ def extract_wrapper_setters(repo: Path):
                           and ast.unparse(n.value).endswith('__dict__')]
                 if not stores or not any(c == 'replace_node' for _, c in calls):
                     continue
-                drops = any(c == 'drop_cached_views' and ln > max(stores) for ln, c in calls)
+                drops = any(c == 'drop_cached_views' for ln, c in calls)     # before or after the store: the two touch different keys
                 rows.append((str(rel), cls.name, 'drops' if drops else 'keeps'))
     return sorted(set(rows))
 
